@@ -174,6 +174,7 @@ func cmdCheck(argv []string) int {
 	for _, k := range keys {
 		u := e.verify(k, e.cs.Funcs[k])
 		units = append(units, u)
+		units = append(units, u.spawnUnits...)
 		if *verbose {
 			fmt.Printf("  %s: %d obligations, rejected=%q\n", u.name, len(u.obls), u.rejected)
 		}
